@@ -44,6 +44,14 @@ M=[
  (["C16","C01"],"L1-reenter-under-write","core/compile_catalog.go","			if hi, ok := v.(*catalog.HTTPInteraction); ok {\n				pp := pathParameters(v.Path().String())","			if hi, ok := v.(*catalog.HTTPInteraction); ok && core.catalog.Interactions.Len() > 0 {\n				pp := pathParameters(v.Path().String())","L1:core.(*JApiCore).BuildResourceMethodsPathVariables"),
  (["C11","C07"],"H1-no-dup-test","core/compile_core_macro.go","	if _, ok := core.macro[name]; ok {\n		return d.KeywordError(fmt.Sprintf(\"%s (%q)\", jerr.DuplicateNames, name))\n	}\n","	_ = fmt.Sprintf\n","H1:core.(*JApiCore).addMacro"),
  (["C02"],"E2a-japierror-late","core/build_catalog.go","		return core.directivesWithPastes[0].KeywordError(\"JSIGHT should be the first directive\")","		return core.japiError(\"JSIGHT should be the first directive\", 0)","E2a:"),
+ (["C19","C04","C06"],"R4-parent-before-hoist","core/context_processing.go","			if isURL {\n				if core.currentContextDirective.HasExplicitContext {","			d.Parent = core.currentContextDirective\n\n			if isURL {\n				if core.currentContextDirective.HasExplicitContext {","R4:exit:core.(*JApiCore).processContext"),
+ (["C06","C04"],"R4-linked-but-not-listed","core/context_processing.go","			d.Parent = core.currentContextDirective\n			core.currentContextDirective.AppendChild(d)\n			core.currentContextDirective = d","			d.Parent = core.currentContextDirective\n			if !d.Type().IsHTTPRequestMethod() || d.NamedParameter(\"Path\") == \"\" {\n				core.currentContextDirective.AppendChild(d)\n			}\n			core.currentContextDirective = d","R4:exit:core.(*JApiCore).processContext"),
+ (["C20","C12"],"PA1-content-filter","core/compile_catalog.go","		if s != nil && s.Schema != nil && s.Schema.Notation == notation.SchemaNotationJSight {\n			if err := core.processSchemaContentJSightAllOf(s.Schema.ContentJSight, s.Schema.UsedUserTypes); err != nil {","		if s != nil && s.Schema != nil && s.Schema.Notation == notation.SchemaNotationJSight && s.Schema.ContentJSight.Rules.Has(\"allOf\") {\n			if err := core.processSchemaContentJSightAllOf(s.Schema.ContentJSight, s.Schema.UsedUserTypes); err != nil {","PA1:core.(*JApiCore).processBaseUrlAllOf"),
+ (["C19"],"TN1-no-underscore-doubling","catalog/tag_name.go","	title = strings.ReplaceAll(title, \"_\", \"__\")\n","","TN1:code"),
+ (["C19"],"TN1-special-case-collides","catalog/tag_name.go","		return \"@_\"","		return \"@__\"","TN1:special:/"),
+ (["C15"],"DN2-cr-before-crlf","core/description.go","	b = bytes.ReplaceAll(b, []byte{'\\r', '\\n'}, []byte{'\\n'}) // Windows\n	b = bytes.ReplaceAll(b, []byte{'\\r'}, []byte{'\\n'})       // Macintosh (old)\n","	b = bytes.ReplaceAll(b, []byte{'\\r'}, []byte{'\\n'})       // Macintosh (old)\n	b = bytes.ReplaceAll(b, []byte{'\\r', '\\n'}, []byte{'\\n'}) // Windows\n","DN2:order"),
+ (["C15"],"DN1-setter-rewrites","catalog/setters.go","	if c.Info.Description != nil {\n		return errors.New(jerr.NotUniqueDirective)\n	}\n","	if c.Info.Description != nil {\n		return errors.New(jerr.NotUniqueDirective)\n	}\n	text = Annotation(text)\n","DN1:AddDescriptionToInfo:store"),
+ (["C13"],"LC1-stop-at-first-undeclared","core/compile_catalog.go","				delete(pp, p.parameter)\n			}\n		}\n","				delete(pp, p.parameter)\n			} else {\n				break\n			}\n		}\n","LC1:core.(*JApiCore).BuildResourceMethodsPathVariables"),
 ]
 only=set(sys.argv[1:])
 ok=bad=0
